@@ -110,6 +110,9 @@ Definition ix_add (ix : index) (r : irec) : outcome index :=
     end in
   if q_start r <? last then Err 3 else
   obind (ix_linear (rintv ref) (q_start r) (q_end r) (q_cb r)) (fun intv =>
+  (* the branch of the linear-index update that adds tiles (the only one that
+     changes the length) also clears IsSorted *)
+  let sorted := if zlen intv >? zlen (rintv ref) then false else sorted in
   let ref' := mkRef bins (Some (ix_upd_stats (rstats ref) c (q_mapped r))) intv in
   Ok (mkIdx (upd_nat refs (Z.to_nat rid) ref') (Some um) sorted (q_start r)))).
 
@@ -177,13 +180,31 @@ Definition ix_overlapping_bins (beg end_ : Z) : list Z :=
 
 (** ** Chunks *)
 
-(** [sort.Search(len(ref.Bins), func(i) bool { return ref.Bins[i].Bin >= b })] followed by
-    the equality test, on the bin list sorted by number. *)
-Fixpoint ix_search (bs : list ibin) (b : Z) : option ibin :=
-  match bs with
-  | [] => None
-  | x :: t => if bnum x >=? b then (if bnum x =? b then Some x else None) else ix_search t b
+(** [sort.Search(n, f)]: binary search for the smallest index in [0, n) at which
+    [f] holds ([i, j := 0, n; for i < j { h := int(uint(i+j) >> 1); if !f(h) { i = h + 1 } else { j = h } }]),
+    here with [f h = (key l[h] >= b)].  Coded as written: on a list that is not
+    sorted it returns whatever the bisection arrives at.  The loop runs at most
+    [length l] times (the fuel); running out of fuel cannot happen. *)
+Fixpoint ix_bs_go {A} (key : A -> Z) (d : A) (l : list A) (b : Z) (fuel : nat) (i j : Z) : Z :=
+  match fuel with
+  | O => i
+  | S f =>
+      if i <? j then
+        let h := Z.shiftr (i + j) 1 in
+        if key (nth (Z.to_nat h) l d) >=? b then ix_bs_go key d l b f i h
+        else ix_bs_go key d l b f (h + 1) j
+      else i
   end.
+Definition ix_bsearch {A} (key : A -> Z) (d : A) (l : list A) (b : Z) : Z :=
+  ix_bs_go key d l b (length l) 0 (zlen l).
+
+(** [c := sort.Search(...); if c < len(ref.Bins) && ref.Bins[c].Bin == b { ... }] *)
+Definition ix_search (bs : list ibin) (b : Z) : option ibin :=
+  let c := ix_bsearch bnum (mkBin 0 []) bs b in
+  if c <? zlen bs then
+    let x := nth (Z.to_nat c) bs (mkBin 0 []) in
+    if bnum x =? b then Some x else None
+  else None.
 
 (** The tile loop of [Chunks], exactly as written: [true] when the chunk is appended. *)
 Fixpoint ix_tile_loop (tiles : list Z) (j : Z) (have : bool) (iv beg end_ cend : Z) : bool :=
@@ -214,9 +235,14 @@ Definition ix_chunks_of (ix : index) (rid beg end_ : Z) : outcome (list chunk) :
   chk (0 <=? iv) (Ok (ix_isort fst (ix_candidates ref iv beg end_))).
 
 (** [Chunks] also sorts the index; the new state is returned with the answer. *)
+(** [if end > 1<<indexWordBits { end = 1 << indexWordBits }] *)
+Definition ix_clip_end (end_ : Z) : Z :=
+  if end_ >? 2 ^ internal_indexWordBits then 2 ^ internal_indexWordBits else end_.
+
 Definition ix_chunks (ix : index) (rid beg end_ : Z) : outcome (list chunk) * index :=
   if (rid <? 0) || (rid >=? zlen (irefs ix)) then (Err 1, ix)
-  else let ix' := ix_sort ix in (ix_chunks_of ix' rid beg end_, ix').
+  else if (beg <? 0) || (end_ <? beg) then (Err 2, ix)          (* ErrInvalid, before the index is sorted *)
+  else let ix' := ix_sort ix in (ix_chunks_of ix' rid beg (ix_clip_end end_), ix').
 
 (** ** MergeChunks (the strategy is applied to every bin's chunk list, sorted first) *)
 Definition ix_merge_ref (s : list chunk -> list chunk) (r : iref) : iref :=
